@@ -5,6 +5,7 @@ import ast
 from typing import Any
 
 from .. import rx
+from ..boolform import resolved_src
 from ..model import AnalysisError, norm_src, walk_no_nested
 from ..report import Ctx
 from .common import enclosing_map
@@ -78,7 +79,7 @@ def rule_extglob_dispatch(ctx: Ctx, rule: str) -> None:
                    witness="swapping the `?` and `@` arms makes `?(a)b` reject `b`")
         # the formatted content must be the joined alternatives of this group
         arg = fmt[0].args[0] if fmt[0].args else None
-        ok_arg = arg is not None and norm_src(arg).replace('"', "'") == "''.join(extended)"
+        ok_arg = arg is not None and resolved_src(fi.node, arg).replace('"', "'") == "''.join(extended)"
         ctx.ob(rule, f'{key}/content', ok_arg, site, "content slot = ''.join(extended)", norm_src(arg) if arg else 'none')
 
 
